@@ -109,13 +109,13 @@ theorem dict_step (s : ReplDict.State) (o : DictOp) :
 
 /-! ### set -/
 theorem set_step (choose : PySet.S → Int) (s : ReplSet.State) (o : SetOp) :
-    ((ReplSet.step choose s o).1.data = (RefSet.step choose s.data o).1) ∧
-    (ReplSet.step choose s o).2 = (RefSet.step choose s.data o).2 := by
+    ((ReplSet.stepWith choose s o).1.data = (RefSet.step choose s.data o).1) ∧
+    (ReplSet.stepWith choose s o).2 = (RefSet.step choose s.data o).2 := by
   cases o with
-  | reset v => cases v <;> simp [ReplSet.step, RefSet.step]
-  | remove x => simp only [ReplSet.step, RefSet.step]; cases PySet.remove s.data x <;> simp
-  | pop => simp only [ReplSet.step, RefSet.step]; cases PySet.pop choose s.data <;> simp
-  | _ => simp [ReplSet.step, RefSet.step]
+  | reset v => cases v <;> simp [ReplSet.stepWith, RefSet.step]
+  | remove x => simp only [ReplSet.stepWith, RefSet.step]; cases PySet.remove s.data x <;> simp
+  | pop => simp only [ReplSet.stepWith, RefSet.step]; cases PySet.pop choose s.data <;> simp
+  | _ => simp [ReplSet.stepWith, RefSet.step]
 
 /-! ### queue -/
 /-- relation battery state ↔ `queue.Queue` -/
